@@ -345,10 +345,13 @@ public:
 				haveExpected = !first;
 				expectedKey = e.keyHash;
 				first = false;
+				long inner = 0;
 				do {
 					runOne(body, after);
+					if((++inner & 1023) == 0 && ctx.timeUp()) { res.capped = true; break; }
 				} while(ex.advance());
-				if((fi & 63) == 0 && ctx.timeUp()) { res.capped = true; break; }
+				if(res.capped) break;
+				if((fi & 15) == 0 && ctx.timeUp()) { res.capped = true; break; }
 				if(seen.size() > opt.maxStates) { res.capped = true; break; }
 			}
 			res.frontierSizes.push_back(nextFrontier.size());
